@@ -564,50 +564,79 @@ def read_data_inductive(c):
 
 
 @contract('C18', 'tcp.readPacket.inductive', [TRN + ':SocketTransport.readPacket', CPX + ':CPXPacket.__init__', CODEC[2]],
-          clause='readPacket on a stream that starts with a frame <16-bit length n><n wire bytes> consumes exactly 2 + n bytes and '
-                 'returns the packet those wire bytes encode (fields from the header bits, payload = the bytes behind the header), '
-                 'for every n in 0..65535, every content, every fragmentation; _readData is used through its contract '
-                 '(tcp.readData.inductive); frames that do not decode (n < 2, unsupported version, values outside the '
-                 'enumerations) raise AFTER the frame has been consumed, so the framing of the following packets is kept',
+          clause='readPacket on a stream that starts with a frame <16-bit length><header b0 b1><payload P> consumes exactly that '
+                 'frame and returns the packet it encodes (fields from the header bits, payload == P), for EVERY payload length '
+                 '0..65533, every content, every fragmentation; _readData is used through its contract (tcp.readData.inductive); '
+                 'frames that do not decode (unsupported version, values outside the enumerations) raise AFTER the frame has been '
+                 'consumed, so the framing of the following packets is kept',
           max_paths=2000)
 def read_packet_inductive(c):
-    c.int('n', 0, 65535)
-    W = c.seq('W', 'bytes', 65535)
+    c.int('b0', 0, 255), c.int('b1', 0, 255)
+    P = c.seq('P', 'bytes', 65533)
     rest = c.seq('rest', 'bytes', 10)
-    c.require('len(W) == n')
-    S = c.snapshot('S', "pack('<H', n) + W + rest")
+    S = c.snapshot('S', "pack('<HBB', 2 + len(P), b0, b1) + P + rest")
     ghost = c.ext('ghost', attrs={'pos': 0})
     rx = transport(c, free_stream_socket(c, S, ghost))
     if c.backend == 'sym':
         import z3
-        from pyvc.values import SSeq
-        from pyvc.ops import zterm, mk_int
+        from pyvc.values import SSeq, PBytearray
+        from pyvc.ops import zterm, mk_int, mk_bool
+        n = 2 + z3.Length(P.t)
+        b0, b1 = zterm(c.get('b0')), zterm(c.get('b1'))
 
         def read_data(I, f, args, kwargs):
-            """contract of _readData proved in tcp.readData.inductive"""
+            """contract of _readData (proved in tcp.readData.inductive): returns S[pos:pos+size], pos += size.
+            For the two reads that coincide with the pieces S was built from, the same value is returned in its
+            structured form (obligation `structured-value-is-the-contract-value`), which keeps the header bytes out of the
+            sequence theory."""
             size, pos = zterm(args[1]), zterm(ghost.attrs['pos'])
             if not I.path.decide(z3.And(size >= 0, pos + size <= z3.Length(S.t))):
                 I.raise_py('Deadlock', 'stream exhausted')
             ghost.attrs['pos'] = mk_int(pos + size)
-            return SSeq(z3.SubSeq(S.t, pos, size), 'bytearray')
+            generic = z3.SubSeq(S.t, pos, size)
+            if I.path.must(z3.And(pos == 0, size == 2)):
+                val = PBytearray([mk_int(n % 256), mk_int((n / 256) % 256)])
+                term = z3.Concat(z3.Unit(n % 256), z3.Unit((n / 256) % 256))
+            elif I.path.must(z3.And(pos == 2, size == n)):
+                term = z3.Concat(z3.Unit(b0), z3.Unit(b1), P.t)
+                val = SSeq(term, 'bytearray')
+            else:
+                return SSeq(generic, 'bytearray')
+            I.obligation('A', 'structured-value-is-the-contract-value', mk_bool(term == generic), {'expr': 'piece == S[pos:pos+size]'})
+            return val
         c.summary(TRN + ':SocketTransport._readData', read_data)
     c.call((rx, 'readPacket'))
-    c.snapshot('ok', 'n >= 2 and (W[1] >> 6) == 0 and ((W[0] >> 3) & 7) in %r and (W[0] & 7) in %r and (W[1] & 0x3F) in %r'
-               % (TARGETS, TARGETS, FUNCTIONS) if c.get('raised') is None else 'False')
-    c.ensure('frame-consumed-exactly-whatever-the-outcome', 'ghost.pos == 2 + n')
-    c.ensure('only-declared-errors', "raised in (None, 'struct.error', 'RuntimeError', 'ValueError')")
-    c.ensure('too-short-for-a-header', "iff(raised == 'struct.error', n < 2)")
+    c.snapshot('ver', 'b1 >> 6')
+    c.snapshot('valid', '((b0 >> 3) & 7) in %r and (b0 & 7) in %r and (b1 & 0x3F) in %r' % (TARGETS, TARGETS, FUNCTIONS))
+    c.ensure('frame-consumed-exactly-whatever-the-outcome', 'ghost.pos == 4 + len(P)')
+    c.ensure('accepted-iff-version-0-and-enumerated', 'iff(raised is None, ver == 0 and valid)')
+    c.ensure('unsupported-version-rejected', "implies(ver != 0, raised == 'RuntimeError')")
+    c.ensure('only-declared-errors', "raised in (None, 'RuntimeError', 'ValueError')")
     if c.get('raised') is None:
-        c.ensure('accepted-only-if-decodable', 'ok')
         c.snapshot('r', 'result')
-        c.ensure('fields', "typename(r) == 'CPXPacket' and r.source.value == (W[0] >> 3) & 7 and r.destination.value == W[0] & 7 and "
-                           "r.function.value == W[1] & 0x3F and r.lastPacket == ((W[0] & 0x40) != 0) and r.version == 0")
-        c.ensure('payload-and-length', 'r.data == W[2:] and r.length == n - 2')
-    elif c.get('raised') == 'RuntimeError':
-        c.ensure('unsupported-version', '(W[1] >> 6) != 0')
-    elif c.get('raised') == 'ValueError':
-        c.ensure('outside-the-enumerations', '(W[1] >> 6) == 0 and not (((W[0] >> 3) & 7) in %r and (W[0] & 7) in %r and (W[1] & 0x3F) in %r)'
-                 % (TARGETS, TARGETS, FUNCTIONS))
+        c.ensure('fields', "typename(r) == 'CPXPacket' and r.source.value == (b0 >> 3) & 7 and r.destination.value == b0 & 7 and "
+                           "r.function.value == b1 & 0x3F and r.lastPacket == ((b0 & 0x40) != 0) and r.version == 0")
+        c.ensure('payload-and-length', 'r.data == P and r.length == len(P)')
+
+
+def _short_frame(n):
+    @contract('C18', 'tcp.readPacket.short_frame.%d' % n, SOCK[1:] + [CODEC[2]],
+              clause='a frame whose length field is below the size of a CPX header (%d) is consumed and rejected (struct.error); '
+                     'the stream position stays on the frame boundary' % n,
+              bounded='3 further bytes in the stream; all fragmentations')
+    def k(c):
+        c.bytes('W', n), c.bytes('rest', 3)
+        c.snapshot('S', "pack('<H', %d) + W + rest" % n)
+        sock, st = stream_socket(c, 'rsock', 'S', 2 + n + 3)
+        rx = transport(c, sock)
+        c.call((rx, 'readPacket'))
+        c.let('pos', st['pos'])
+        c.ensure('rejected-after-consuming-the-frame', "raised == 'struct.error' and pos == %d" % (2 + n))
+    return k
+
+
+_short_frame(0)
+_short_frame(1)
 
 
 # ------------------------------------------------------------------------- downlink end to end (sequential schedule)
